@@ -432,3 +432,57 @@ def rule_D2(tree: Tree) -> RuleResult:
     cons = [c for c in body_walk(pf.node) if isinstance(c, ast.Call) and len(c.args) == 2 and dotted(c.args[1]) == pf.params[1]]
     r.ob(v == ["src_packet"] and len(cons) >= 2, Finding("D2", "quic.quic_frame:Frame.__init__:src-packet", "every frame records the packet it was parsed from (parse_frames passes src_packet to every constructor)", fr.module.line(fr.node)))
     return r
+
+
+def rule_packet_fields(tree: Tree) -> RuleResult:
+    r = RuleResult("PKT", "Packet binds each attribute to the dpkt field of the same meaning (addresses, ports, sequence number, payload per transport; variant flags)")
+    f = tree.func("packet", "Packet.__init__")
+    m = f.module
+    cfg = cfg_of(f.node)
+    want_common = {"self.timestamp": "timestamp", "self.binary": "binary", "self.ethernet": "dpkt.ethernet.Ethernet(self.binary)", "self.ip": "self.ethernet.data",
+                   "self.ethernet_src": "self.ethernet.src", "self.ethernet_dst": "self.ethernet.dst", "self.ip_src": "self.ip.src", "self.ip_dst": "self.ip.dst"}
+    want_tcp = {"self.tcp": "self.ip.data", "self.seq": "self.tcp.seq", "self.ack": "self.tcp.ack", "self.sport": "self.tcp.sport", "self.dport": "self.tcp.dport", "self.tls_data": "self.tcp.data"}
+    want_udp = {"self.udp": "self.ip.data", "self.sport": "self.udp.sport", "self.dport": "self.udp.dport", "self.tls_data": "self.udp.data"}
+    got_common, got_tcp, got_udp = {}, {}, {}
+    for n in cfg.nodes:
+        if n.kind != "stmt" or not isinstance(n.ast, ast.Assign):
+            continue
+        tgt = dotted(n.ast.targets[0])
+        if not tgt or not tgt.startswith("self."):
+            continue
+        facts = [(src(e, 120), t) for e, t in cfg.facts_at(n.id)]
+        in_tcp = ("isinstance(self.ip.data, dpkt.tcp.TCP)", True) in facts
+        in_udp = ("isinstance(self.ip.data, dpkt.udp.UDP)", True) in facts
+        val = src(n.ast.value, 200)
+        if in_tcp:
+            got_tcp[tgt] = val
+        elif in_udp:
+            got_udp[tgt] = val
+        elif tgt in want_common:
+            got_common[tgt] = val
+    for name, want, got in (("common", want_common, got_common), ("tcp", want_tcp, got_tcp), ("udp", want_udp, {k: v for k, v in got_udp.items() if k != "self.udp_packet"})):
+        r.instances += 1
+        bad = {k: got.get(k) for k, v in want.items() if got.get(k) != v}
+        r.ob(not bad, Finding("PKT", f"packet:Packet.__init__:{name}-fields", f"Packet ({name}): {bad} — expected {dict((k, want[k]) for k in bad)}; a swapped or mis-sourced field silently "
+                                                                           f"attributes traffic to the wrong endpoint / sequence position", m.line(f.node)))
+    # variant flags: tcp_packet True only for TCP; udp_packet True only for UDP; ipv6 flag from the IP class
+    r.instances += 1
+    from ..rules.checksum import packet_variants
+    vs = packet_variants(tree)
+    kinds = set()
+    for v in vs:
+        if "tcp" in v:
+            kinds.add(("tcp", v.get("tcp_packet"), v.get("udp_packet")))
+        elif "udp" in v:
+            kinds.add(("udp", v.get("tcp_packet"), v.get("udp_packet")))
+        else:
+            kinds.add(("other", v.get("tcp_packet"), v.get("udp_packet")))
+    ok = ("tcp", True, False) in kinds and ("udp", False, True) in kinds and all(k[1:] == (False, False) for k in kinds if k[0] == "other")
+    v6 = {}
+    for n in cfg.nodes:
+        if n.kind == "stmt" and isinstance(n.ast, ast.Assign) and dotted(n.ast.targets[0]) == "self.ipv6_packet":
+            v6[try_fold(n.ast.value)] = [(src(e, 80), t) for e, t in cfg.facts_at(n.id) if "IP6" in src(e, 80)]
+    ok = ok and v6.get(True) == [("isinstance(self.ethernet.data, dpkt.ip6.IP6)", True)] and v6.get(False) == [("isinstance(self.ethernet.data, dpkt.ip6.IP6)", False)]
+    r.ob(ok, Finding("PKT", "packet:Packet.__init__:variant-flags", f"Packet variants must be flagged (tcp_packet, udp_packet) = (True, False) for TCP, (False, True) for UDP, (False, False) otherwise, "
+                                                                   f"and ipv6_packet iff the frame carries IPv6; found {sorted(kinds, key=str)} / {v6}", m.line(f.node)))
+    return r
